@@ -4,6 +4,7 @@ import verde as vd
 from hypothesis import strategies as st
 
 from vlib import blocks, gen
+from vlib import build as vbuild
 from vlib.runner import Sub, Violation
 
 PROPERTY = "C09"
@@ -63,20 +64,21 @@ def cases(draw, allow_unweighted_reductions=True):
     extra = [value_lists(draw, n, "free") for _ in range(n_extra)]
     return dict(layout=lay, points=pts, data=data, weights=weights, reduction=red, center=draw(st.booleans()),
                 drop=draw(st.booleans()), extra=extra, shape=draw(st.sampled_from(blocks.shape_options(n))),
-                weights_1d=draw(st.booleans()))
+                weights_1d=draw(st.booleans()), orders=draw(vbuild.orders_strategy()))
 
 
 def build(case):
     lay, pts = case["layout"], case["points"]
     shape = case["shape"]
     xy = [blocks.point_xy(lay, p) for p in pts]
-    e = np.array([p[0] for p in xy]).reshape(shape)
-    n = np.array([p[1] for p in xy]).reshape(shape)
-    coords = (e, n) + tuple(np.array(x).reshape(shape) for x in case["extra"])
-    data = tuple(np.array(d).reshape(shape) for d in case["data"])
+    lay = vbuild.Lay(case.get("orders"))
+    e = lay([p[0] for p in xy], shape)
+    n = lay([p[1] for p in xy], shape)
+    coords = (e, n) + tuple(lay(x, shape) for x in case["extra"])
+    data = tuple(lay(d, shape) for d in case["data"])
     weights = None
     if case["weights"] is not None:
-        weights = tuple(np.array(w).reshape(shape if not case.get("weights_1d") else [-1]) for w in case["weights"])
+        weights = tuple(lay(w, shape if not case.get("weights_1d") else [-1]) for w in case["weights"])
     return coords, data, weights
 
 
@@ -152,7 +154,7 @@ def check(case, ctx):
     nblocks = lay["nb_n"] * lay["nb_e"]
     ctx.label(case["reduction"], lay["pres"], "comps%d" % len(data), "weights" if weights is not None else "noweights",
               "center" if case["center"] else "reduced_coords", "drop" if case["drop"] else "keep_extra%d" % len(case["extra"]),
-              "ndim%d" % coords[0].ndim)
+              "ndim%d" % coords[0].ndim, "layouts_" + "".join(sorted(set(case.get("orders") or ["C"]))) if coords[0].ndim == 2 else "1d")
     if len(occupied) < nblocks:
         ctx.label("has_empty_block")
     ctx.nt(len(occupied) >= 2 and len(set(pops)) >= 2 and (len(occupied) < nblocks or weights is not None))
